@@ -7,7 +7,7 @@ import json, os, shutil, subprocess, sys, tempfile, time
 
 VERIF = os.path.dirname(os.path.dirname(os.path.abspath(__file__)))
 PY = "/venv/bin/python"
-PROPS = ["C11", "C12", "C13", "C14", "C15", "C16", "C17", "C18"]
+PROPS = (os.environ.get("PRESERVE_PROPS") or "C11 C12 C13 C14 C15 C16 C17 C18").split()  # PRESERVE_PROPS="C11" limits the run to some checks
 
 
 def main():
